@@ -57,7 +57,16 @@ class Outcome:
         self.unreproduced = []
 
 
-def confirm_violations(prop, agg, r_mcb, predicate, keyfn, out, max_replays=40, wtypes=('double',)):
+def concrete_case(rec, weights):
+    """case line for the symbolic harness with every weight fixed (integers)"""
+    s = 'algo=%s n=%s edges=%s sym=none fixed=%s' % (rec.get('algo'), rec['n'], rec.get('edges', '-') or '-', ','.join(str(x) for x in weights))
+    for k in ('k', 'order', 'perm'):
+        if rec.get(k) not in (None, ''):
+            s += ' %s=%s' % (k, rec[k])
+    return s
+
+
+def confirm_violations(prop, agg, r_mcb, predicate, keyfn, out, max_replays=40, wtypes=('double',), harness=None):
     """Replays every distinct violated leaf (capped) on the real build; confirmed ones become VIOLATION or
     KNOWN-FINDING lines; an unconfirmed counterexample is an engine fault."""
     seen = set()
@@ -110,6 +119,19 @@ def confirm_violations(prop, agg, r_mcb, predicate, keyfn, out, max_replays=40, 
                 if predicate(o, rec):
                     confirmed = (line, o)
                     break
+        replayer_name = 'replay/r_mcb.cpp'
+        if confirmed is None and harness is not None and 'crash' not in obl['name']:
+            # behaviour that depends on the address order of the edges does not always reproduce in the double build (the allocator trick is
+            # best effort for m > 6).  Last resort: the REAL templates once more, on the concrete weights of the counterexample (no symbolic
+            # variable left; exact rational constants), inside the harness process whose allocation pattern produced the order.
+            cl = concrete_case(rec, weights)
+            s2, log2 = run_harness(harness, [cl], prop + '-concrete', timeout=300)
+            a2 = Agg([prop + ':'])
+            a2.add_log(log2)
+            if a2.violated:
+                confirmed = (cl, {'violated_obligations': sorted(set(o2['name'] for _, o2 in a2.violated))[:6],
+                                  'address_order': a2.violated[0][0].get('layout')})
+                replayer_name = 'harness:concrete'
         if confirmed is None:
             # e.g. behaviour that depends on the address order of the edges, which the replay cannot always reproduce
             unrepro.append('%s / %s / weights %s' % (rec.get('case'), obl['name'], weights))
@@ -118,7 +140,7 @@ def confirm_violations(prop, agg, r_mcb, predicate, keyfn, out, max_replays=40, 
         key = keyfn(rec, obl)
         rp = os.path.join(cex_dir(), '%s-replay-%d.json' % (prop, idx))
         with open(rp, 'w') as f:
-            json.dump({'property': prop, 'replayer': 'replay/r_mcb.cpp', 'line': line, 'obligation': obl['name'],
+            json.dump({'property': prop, 'replayer': replayer_name, 'line': line, 'obligation': obl['name'],
                        'key': key, 'observed': o, 'symbolic_case': rec.get('case'), 'model': obl.get('model') or rec.get('model')},
                       f, indent=1)
         kf = finding_matches(prop, key)
@@ -218,6 +240,11 @@ def finish(prop, tier, seed, level, agg, out, coverage_extra, assumptions, t0, n
         'exhaustive': False,
     }
     cov.update(coverage_extra)
+    if prop in ('C01', 'C02', 'C03', 'C04', 'C05', 'C06', 'C07', 'C08', 'C12', 'C14', 'C15'):
+        cov.setdefault('wide_slices', 'in addition to the bounds above: seeded (VERIF_SEED) connected graphs on 6..8 (approx/spanner: 6..9) vertices with '
+                       'n+3..n+6 edges and dense ones on 6..7 vertices (m >= 2n), ONE symbolic weight (spanner: two) against a concrete background - each '
+                       'case is decided for every value of that weight only; counts per check in DESIGN.md 12.1; the graphs are listed in the harness log')
+        cov.setdefault('narrowing_conversions_explored', getattr(agg, 'narrowings', 0))
     write_evidence(prop, tier, seed, level, cov, time.time() - t0, out.n_confirmed, assumptions)
     for l in out.known_lines:
         print(l)
